@@ -1,6 +1,8 @@
 #!/usr/bin/env python3
 """Seeded random pest grammars. Output: JSON lines {"id":i,"text":...,"kinds":{rule:kind}}."""
 import json, os, random, sys
+RECURSIVE = os.environ.get("RECURSIVE") == "1" # guarded recursion: ("a" ~ rK) with rK any rule, also itself
+STACKY = os.environ.get("STACKY") == "1"       # every rule pushes first; stack terminals and restore points are frequent
 SAFE_SKIP = os.environ.get("SAFE_SKIP") == "1"   # only atomic / literal skip rules (avoids the F-WS family)
 
 KINDS = ["", "", "_", "@", "$", "!"]
@@ -10,13 +12,16 @@ if os.environ.get("MULTIBYTE") == "1":
 BUILT = ["ANY", "SOI", "EOI", "ASCII_DIGIT", "NEWLINE"]
 STACK = ["PEEK", "POP", "DROP", "PEEK_ALL", "POP_ALL"]
 
+ALLRULES = []
 def expr(rnd, depth, later, stack_ok, p_ref=0.25):
     r = rnd.random()
+    if RECURSIVE and ALLRULES and rnd.random() < 0.12:
+        return "(" + rnd.choice(['"a"', '"b"', '"c"']) + " ~ " + rnd.choice(ALLRULES) + ")"
     if depth <= 0 or r < 0.22:
         r2 = rnd.random()
         if later and r2 < p_ref:
             return rnd.choice(later)
-        if stack_ok and r2 < p_ref + 0.2:
+        if stack_ok and r2 < p_ref + (0.5 if STACKY else 0.2):
             if rnd.random() < 0.3:
                 a = rnd.randint(-3, 3)
                 if rnd.random() < 0.5:
@@ -54,7 +59,8 @@ def expr(rnd, depth, later, stack_ok, p_ref=0.25):
 def grammar(rnd, gid):
     nrules = rnd.randint(2, 6)
     names = [f"r{i}" for i in range(nrules)]
-    stack_ok = rnd.random() < 0.5
+    ALLRULES[:] = names
+    stack_ok = STACKY or rnd.random() < 0.5
     kinds = {}
     lines = []
     ws = rnd.random() < 0.7
@@ -67,6 +73,9 @@ def grammar(rnd, gid):
         extra = []
         if ws and rnd.random() < 0.15: extra.append("WHITESPACE")
         e = expr(rnd, rnd.randint(1, 3), later + extra, stack_ok)
+        if STACKY and stack_ok:
+            pre = " ~ ".join("PUSH(" + rnd.choice(['"a"', '"b"', '"ab"', "'a'..'b'", '""']) + ")" for _ in range(rnd.randint(1, 2)))
+            e = "(" + pre + " ~ " + e + ")"
         lines.append(f"{n} = {k}{{ {e} }}")
     if ws:
         k = rnd.choice(["_", "@"] if SAFE_SKIP else ["_", "_", "", "@", "$"])
